@@ -141,7 +141,7 @@ def cmd_replay(args):
             say("outcome digest of run %s: %s=%s %s=%s" % (br["run"], variant, d0, j["differential_with"], d1))
             hit = d0 is not None and d1 is not None and d0 != d1
         else:
-            classes, _ = R.block_replay(variant, j["property"], j.get("tier", "quick"), j["origin_seed"], br["part"], br["start"], br["run"])
+            classes, _ = R.block_replay(variant, j["property"], j.get("tier", "quick"), j["origin_seed"], br["part"], br["start"], br["run"], extra=br.get("extra", []))
             say("observed classes at run %s: %s" % (br["run"], classes))
             hit = want in classes
         if hit:
